@@ -83,6 +83,17 @@ def init_mats(np, init):
     return [np.array(F, dtype=float) / float(init["den"]) for F in init["factors"]]
 
 
+@contextlib.contextmanager
+def _quiet_logging():
+    import logging
+    prev = logging.root.manager.disable
+    logging.disable(logging.CRITICAL)
+    try:
+        yield
+    finally:
+        logging.disable(prev)
+
+
 def run(ttb, np, rd):
     """one real pyttb run; stdout captured and discarded; fresh copies of every input"""
     alg = rd["alg"]
@@ -94,7 +105,7 @@ def run(ttb, np, rd):
     pr = int(rd.get("printitn", 0))
     buf = io.StringIO()
     res = {}
-    with contextlib.redirect_stdout(buf):
+    with contextlib.redirect_stdout(buf), _quiet_logging():
         if alg == "cp_als":
             ini = ttb.ktensor([m.copy() for m in init_mats(np, init)]) if init else "random"
             M, M0, out = ttb.cp_als(X, int(rd["rank"]), stoptol=o.get("stoptol", 1e-4), maxiters=o["maxiters"],
